@@ -52,6 +52,7 @@ _COMMON = {
     "history_depth_2": "a query was executed in a state left behind by a different query",
 }
 _COMMON["long_route"] = "a route of 4, 32 and 1199 hops along a corridor was returned and compared vertex by vertex"
+_COMMON["route_after_geometry_change"] = "a route was asked after every pair had been routed and the edge geometries had then been simplified"
 _COMMON["path_with_cut_off"] = "shortest_path(s, t, cut) with the target within the cut-off"
 _COMMON["cut_off_equal_to_the_distance"] = "... with the cut-off exactly equal to the shortest distance"
 _COMMON["sub_network_extracted"] = "sub_network() was called on the network between queries"
@@ -151,6 +152,8 @@ def fire(g, ev):
         return ("ok", observe(val))
     if ev[0] == "sub":
         st, val = guard(g.net.sub_network, g.args[ev[1]], ev[2], "TOPOLOGIC", False)
+        if st == "ok":
+            guard(val.all_shortest_distances)      # the extracted network is used too (it shares Node objects with its parent)
         return (st, None if st == "ok" else val)
     if ev[0] == "asd":
         st, val = guard(g.net.all_shortest_distances, ev[1])
@@ -325,8 +328,47 @@ def explore_graph(variant, nn, edges, W, depth, ctx):
     elif depth >= 2:
         ctx.count("graphs_not_closed_at_depth_2")
     _cut_queries(variant, nn, edges, W, O, mk, ctx)
+    check_after_geometry_change(variant, nn, edges, None, None, ctx, all_pairs=True)
     ctx.count("graphs")
     return O, n_states
+
+
+def check_after_geometry_change(variant, nn, edges, s, t, ctx, all_pairs=False):
+    """Route every ordered pair, then let another part of the library change the edge geometries (Network.simplify with a
+    huge tolerance: every edge keeps its two ends only), then ask shortest_path(s, t): the route must chain the polylines the
+    edges have NOW (read back from the network)."""
+    O = Oracle(nn, edges)
+    pairs = [(a, b) for a in range(nn) for b in range(nn) if a != b and O.D[a][b] != INF] if all_pairs else \
+        ([(s, t)] if O.D[s][t] != INF else [])
+    if not pairs:
+        return
+    g = Graph(variant, nn, edges, nvert=4)
+    for a in range(nn):
+        for b in range(nn):
+            if a != b:
+                fire(g, ("sp", a, b))
+    st, r = guard(g.net.simplify, 1e6)
+    ctx.transition(nn * (nn - 1) + 2)
+    if st != "ok":
+        return                                    # not an observation of this property
+    try:
+        g.geoms = [[(float(o.position.getX()), float(o.position.getY())) for o in e.geom] for e in g.edge_objs]
+    except Exception:
+        return
+    if any(len(x) < 2 for x in g.geoms):
+        return
+    for (s, t) in pairs:          # (the explorer asks every pair of one network in a row; a replay asks the failing one alone)
+        case = {"kind": "geomchange", "variant": variant, "nn": nn, "edges": [list(e) for e in edges], "s": s, "t": t}
+        ev = ("sp", s, t)
+        res = fire(g, ev)
+        ctx.transition()
+        ctx.case(O.multi[(s, t)])
+        ctx.oblige("route_after_geometry_change")
+        why, facts = verdict(g, O, ev, res)
+        if why is not None:
+            ctx.violation("shortest_path/after-the-edge-geometries-were-simplified/%s" % why, case, facts)
+        else:
+            ctx.outcome(("geomchange", facts.get("edges")))
 
 
 def _cut_queries(variant, nn, edges, W, O, mk, ctx):
@@ -465,6 +507,8 @@ def replay(case, ctx):
         return check_chain(case["variant"], case["N"], ctx)
     if case.get("kind") == "pq":
         return pqueue.replay(case, ctx)
+    if case.get("kind") == "geomchange":
+        return check_after_geometry_change(case["variant"], case["nn"], tuple(tuple(e) for e in case["edges"]), case["s"], case["t"], ctx)
     variant, nn = case["variant"], case["nn"]
     edges = tuple(tuple(e) for e in case["edges"])
     hist = tuple(tuple(h) for h in case["hist"])
